@@ -216,7 +216,8 @@ struct ViewTreeCheck {
         std::vector<LeafGroup> parts;
         std::vector<std::vector<std::array<std::vector<unsigned char>,3>>> cellStore;
         std::vector<std::array<std::vector<unsigned char>,2>> partStore;
-        ViewTree(typename FX::Tree& t) : config(t.getSpacialConfiguration()), sp(t.getSpacialSystem()){
+        // arrayForm: use the constructors taking the array returned by getDataPtrsAndSizes() instead of the pointer/size lists
+        ViewTree(typename FX::Tree& t, const bool arrayForm = false) : config(t.getSpacialConfiguration()), sp(t.getSpacialSystem()){
             const long h = t.getHeight();
             cellStore.resize(h); cells.resize(h);
             for(long l = 0 ; l < h ; ++l){
@@ -226,7 +227,11 @@ struct ViewTreeCheck {
                 for(size_t g = 0 ; g < groups.size() ; ++g){
                     const auto ps = groups[g].getDataPtrsAndSizes();
                     for(int b = 0 ; b < 3 ; ++b) cellStore[l][g][b].assign(ps[b].first, ps[b].first + ps[b].second);
-                    cells[l].emplace_back(cellStore[l][g][0].data(), cellStore[l][g][0].size(), cellStore[l][g][1].data(), cellStore[l][g][1].size(),
+                    if(arrayForm){
+                        const std::array<std::pair<unsigned char*, size_t>, 3> arr{{{cellStore[l][g][0].data(), cellStore[l][g][0].size()}, {cellStore[l][g][1].data(), cellStore[l][g][1].size()}, {cellStore[l][g][2].data(), cellStore[l][g][2].size()}}};
+                        cells[l].emplace_back(arr);
+                    }
+                    else cells[l].emplace_back(cellStore[l][g][0].data(), cellStore[l][g][0].size(), cellStore[l][g][1].data(), cellStore[l][g][1].size(),
                                           cellStore[l][g][2].data(), cellStore[l][g][2].size());
                 }
             }
@@ -235,7 +240,11 @@ struct ViewTreeCheck {
             for(size_t g = 0 ; g < pg.size() ; ++g){
                 const auto ps = pg[g].getDataPtrsAndSizes();
                 for(int b = 0 ; b < 2 ; ++b) partStore[g][b].assign(ps[b].first, ps[b].first + ps[b].second);
-                parts.emplace_back(partStore[g][0].data(), partStore[g][0].size(), partStore[g][1].data(), partStore[g][1].size());
+                if(arrayForm){
+                    const std::array<std::pair<unsigned char*, size_t>, 2> arr{{{partStore[g][0].data(), partStore[g][0].size()}, {partStore[g][1].data(), partStore[g][1].size()}}};
+                    parts.emplace_back(arr);
+                }
+                else parts.emplace_back(partStore[g][0].data(), partStore[g][0].size(), partStore[g][1].data(), partStore[g][1].size());
             }
         }
         long getHeight() const { return config.getTreeHeight(); }
@@ -295,9 +304,14 @@ struct ViewTreeCheck {
         fx.cx.checkArgs = false;
         ViewTree before(*fx.tree);
         accessorsEqual(*fx.tree, before, out);
+        {
+            Outcome o2; ViewTree beforeArr(*fx.tree, true);
+            accessorsEqual(*fx.tree, beforeArr, o2);
+            for(const auto& v : o2.violations) out.add(v.key + ":array-form-constructor", v.detail);
+        }
         // operators on the copies
         {
-            ViewTree vt(*fx.tree);
+            ViewTree vt(*fx.tree, (spec.blockSize % 2) == 0);      // both constructor forms are exercised under the operators
             fx.activate();
             Algo algoV(fx.config, spec.upperLevel);
             algoV.execute(vt);
